@@ -14,7 +14,7 @@ XS = I.XS
 
 NS_MODES = ["none", "prefixed-x", "default-x", "inherit", "rebind-x-to-y", "prefixed-y", "undeclare-default"]
 NAMES = ["a", "b"]
-ATTRS = ["none", "plain", "namespaced", "qname-valued", "xsi-type-int", "two", "qname-valued-inherited-x", "xsi-type-qname"]
+ATTRS = ["none", "plain", "namespaced", "qname-valued", "xsi-type-int", "two", "qname-valued-inherited-x", "xsi-type-qname", "xsi-nil"]
 TEXTS = [None, "t", " ", " t\n", "a&<b"]
 
 
@@ -82,6 +82,11 @@ def gen(ch: Chooser, max_elems: int, max_depth: int = 3, attrs=ATTRS, texts=TEXT
             el.nsdecls.setdefault("xs", XS)
             el.attrs.append(("xsi:type", "xs:int"))
             txt = "5"
+        if a == "xsi-nil":
+            # an empty element that says it is nil
+            el.nsdecls.setdefault("xsi", XSI)
+            el.attrs.append(("xsi:nil", "true"))
+            txt = None
         if a == "xsi-type-qname":
             # a QName value whose namespace is bound on this element only
             el.nsdecls.setdefault("xsi", XSI)
@@ -93,7 +98,7 @@ def gen(ch: Chooser, max_elems: int, max_depth: int = 3, attrs=ATTRS, texts=TEXT
             el.kids.append(txt)
         sc["__parent_prefix__"] = prefix
         room = max_elems - count[0]
-        if room > 0 and depth < max_depth and a not in ("xsi-type-int", "xsi-type-qname"):
+        if room > 0 and depth < max_depth and a not in ("xsi-type-int", "xsi-type-qname", "xsi-nil"):
             k = ch.choose(min(room, 2) + 1, f"{tag}.kids", free=True)
             count[0] += k
             for i in range(k):
